@@ -8,6 +8,8 @@ package main
 import (
 	"flag"
 	"fmt"
+	"io"
+	"log/slog"
 	"os"
 	"strconv"
 
@@ -68,6 +70,10 @@ func main() {
 		if !ok {
 			fmt.Fprintln(os.Stderr, "unknown worker", prop, part)
 			os.Exit(2)
+		}
+		if os.Getenv("VERIF_SLOG") == "" {
+			// the library logs every rejected frame through log/slog; the monitors do not read the log
+			slog.SetDefault(slog.New(slog.NewTextHandler(io.Discard, nil)))
 		}
 		c := core.NewCollector(prop, part, *tier, *seed)
 		x := &checks.Ctx{Batch: *batch, Journal: core.OpenJournal(*journal), Out: *out}
